@@ -1,10 +1,11 @@
 import Bmc.Driver.Prim
 import Bmc.Driver.DecBasic
 import Bmc.Driver.DecCore
+import Bmc.Driver.DecSess
 import Bmc.Driver.Rt
 open Bmc.Driver
 
-def decTables : List (String × DecFn) := decTableBasic ++ decTableCore
+def decTables : List (String × DecFn) := decTableBasic ++ decTableCore ++ decTableSess
 
 def evalDec (args : List String) : String :=
   match args with
